@@ -35,7 +35,9 @@ func canonSx(v any) string {
 	return sxVal(v)
 }
 
-func zeroOf(a jsonapi.Attr) any { return jsonapi.GetZeroValue(a.Type, a.Nullable) }
+// zeroOf: the zero value of the attribute's kind, from the harness's own table (oracle_indep.go),
+// not from the library's GetZeroValue.
+func zeroOf(a jsonapi.Attr) any { return zeroIndep(a.Type, a.Nullable) }
 
 // ownRes: an application's own Resource implementation whose dynamic type cannot be compared
 // with == (a map with value receivers); every method is handed to the resource it carries.
@@ -66,7 +68,7 @@ func suiteResource(r *Rng, n int, thorough bool, o *Out) {
 		}
 		expectID := ""
 		verdict := func() string {
-			for _, k := range typ.Fields() {
+			for _, k := range fieldsIndep(typ) {
 				var gs, gw string
 				ps, _ := guard(func() { gs = canonSx(soft.Get(k)) })
 				pw, _ := guard(func() { gw = canonSx(wr.Get(k)) })
@@ -87,14 +89,14 @@ func suiteResource(r *Rng, n int, thorough bool, o *Out) {
 				return "FAIL:type name"
 			}
 			st, wt := soft.GetType(), wr.GetType()
-			if fmt.Sprint(st.Fields()) != fmt.Sprint(typ.Fields()) || fmt.Sprint(wt.Fields()) != fmt.Sprint(typ.Fields()) {
+			if fmt.Sprint(st.Fields()) != fmt.Sprint(fieldsIndep(typ)) || fmt.Sprint(wt.Fields()) != fmt.Sprint(fieldsIndep(typ)) {
 				return "FAIL:fresh resource does not have the type's fields"
 			}
 			return "ok"
 		}
 		obs := func() string { return sxResView(soft) + " " + sxResView(wr) }
 		o.emit(lst("res", "new", sxType(typ)), obs(), verdict())
-		fields := typ.Fields()
+		fields := fieldsIndep(typ)
 		lastKey := ""
 		for h := r.IntN(8); h > 0 && len(fields) > 0; h-- {
 			var k string
@@ -142,8 +144,8 @@ func suiteResource(r *Rng, n int, thorough bool, o *Out) {
 				// sorts the COPY's to-many IDs in place): what the originals read is what
 				// was last set on them
 				rd := map[string][]string{"t": sortedKeys(typ.Rels)}
-				guard(func() { _ = jsonapi.MarshalResource(soft.Copy(), "", typ.Fields(), rd) })
-				guard(func() { _ = jsonapi.MarshalResource(wr.Copy(), "", typ.Fields(), rd) })
+				guard(func() { _ = jsonapi.MarshalResource(soft.Copy(), "", fieldsIndep(typ), rd) })
+				guard(func() { _ = jsonapi.MarshalResource(wr.Copy(), "", fieldsIndep(typ), rd) })
 				o.stat("set.then-copy-marshaled")
 			}
 			pv := verdict()
@@ -159,7 +161,7 @@ func suiteResource(r *Rng, n int, thorough bool, o *Out) {
 	for c := 0; c < n/3+1; c++ {
 		typ := genTyp(r, genTypeOpts{name: "t", maxAttrs: 4, maxRels: 2})
 		soft := newSoftVia(r, typ, o)
-		cur := typ.Copy() // the type the resource should now have
+		cur := copyTypeIndep(typ) // the type the resource should now have (the oracle's own copy)
 		fresh := 0
 		expect := map[string]string{}
 		zero := func(t jsonapi.Type, k string) string {
@@ -171,7 +173,7 @@ func suiteResource(r *Rng, n int, thorough bool, o *Out) {
 			}
 			return sxVal([]string{})
 		}
-		for _, k := range cur.Fields() {
+		for _, k := range fieldsIndep(cur) {
 			expect[k] = zero(cur, k)
 		}
 		verdict := func() string {
@@ -179,10 +181,10 @@ func suiteResource(r *Rng, n int, thorough bool, o *Out) {
 			if st.Name != cur.Name {
 				return "FAIL:type name is " + st.Name
 			}
-			if fmt.Sprint(st.Fields()) != fmt.Sprint(cur.Fields()) {
-				return fmt.Sprintf("FAIL:fields are %v, expected %v", st.Fields(), cur.Fields())
+			if fmt.Sprint(st.Fields()) != fmt.Sprint(fieldsIndep(cur)) {
+				return fmt.Sprintf("FAIL:fields are %v, expected %v", st.Fields(), fieldsIndep(cur))
 			}
-			for _, k := range cur.Fields() {
+			for _, k := range fieldsIndep(cur) {
 				var g string
 				if p, _ := guard(func() { g = canonSx(soft.Get(k)) }); p {
 					return "FAIL:Get panicked on " + k
@@ -196,7 +198,7 @@ func suiteResource(r *Rng, n int, thorough bool, o *Out) {
 		o.emit(lst("res", "new", sxType(typ)), sxResView(soft)+" "+sxResView(newWrapped(typ)), verdict())
 		for h := 2 + r.IntN(8); h > 0; h-- {
 			var op string
-			fields := cur.Fields()
+			fields := fieldsIndep(cur)
 			panicked := false
 			if r.chance(1, 6) {
 				// a new resource of the same type is created from this one and has ITS type
@@ -338,14 +340,14 @@ func suiteResource(r *Rng, n int, thorough bool, o *Out) {
 			return res
 		}
 		a := mk(typ, "1", vals)
-		typ2 := typ.Copy()
+		typ2 := copyTypeIndep(typ)
 		vals2 := map[string]any{}
 		for k, v := range vals {
 			vals2[k] = cloneVal(v)
 		}
 		id2 := "1"
 		differ := "same"
-		fields := typ.Fields()
+		fields := fieldsIndep(typ)
 		switch r.IntN(10) {
 		case 8, 9: // null against a pointer to the zero value of a nullable attribute: different values
 			for _, k := range sortedKeys(typ.Attrs) {
